@@ -4,7 +4,7 @@ from __future__ import annotations
 import ast
 from typing import Any, Dict, List, Optional, Set, Tuple
 
-from sa import AnalysisError
+from sa import AnalysisError, StructuralViolation
 from sa.pm import ClassInfo, FuncInfo, NotConst, norm, self_attr, walk_local_ordered, call_name
 from sa.cf import cfg_of
 from sa.report import Ob, rule
@@ -164,7 +164,7 @@ def _hash_fields(ctx: Any, cls: ClassInfo) -> Tuple[Set[str], List[str], Optiona
         if isinstance(st, ast.Assign) and any(self_attr(t, me) == '_hash' for t in st.targets):
             hexpr = st.value
     if hexpr is None:
-        raise AnalysisError(f'{cls.full}.__init__: no `self._hash = ...` store found')
+        raise StructuralViolation(init.module.rel, init.qual, 'self._hash = hash((...))', f'{cls.name} computes and stores the hash that __hash__ returns', 'no `self._hash = ...` store in __init__: __hash__ returns a value that is never set')
     from .common import inline_helpers
 
     hexpr = inline_helpers(ctx.prog, init, hexpr)  # `self._identity_hash(a, b)` -> the tuple hash the helper computes
